@@ -11,11 +11,15 @@ for f in sorted(glob.glob(os.path.join(ROOT, "refactors", "*", "result.json"))):
         for l in open(nf):
             if l.strip():
                 title = l.strip().lstrip("# ").strip()[:110]; break
-    rows.append("| %s | %s | %s | %s | %s | %s |" % (n, title.replace("|", "/"), ", ".join(os.path.basename(t) for t in r["touched"]),
-                "yes" if r.get("suite_passes") else "NO", " ".join(sorted(r["checks"])), ", ".join(r["alarms"]) or "none"))
+    ff = os.path.join(d, "result_final.json")
+    fin = json.load(open(ff)) if os.path.exists(ff) else None
+    fin_txt = "-" if fin is None else ("%s: %s" % (" ".join(sorted(fin["checks"])), ", ".join(fin["alarms"]) or "silent"))
+    rows.append("| %s | %s | %s | %s | %s | %s | %s |" % (n, title.replace("|", "/"), ", ".join(os.path.basename(t) for t in r["touched"]),
+                "yes" if r.get("suite_passes") else "NO", " ".join(sorted(r["checks"])), ", ".join(r["alarms"]) or "none", fin_txt))
 open(os.path.join(ROOT, "refactors", "README.md"), "w").write(
     "# Behaviour-preserving changes (wave 5): every check must stay silent\n\n"
     "Written by fresh sub-agents that saw only the property text and a scratch worktree (DESIGN.md 8.5). Each directory holds\n"
     "`refactor.diff`, the agent's `notes.md`, `result.json` (tools/eval_refactor.py) and `eval.log`.\n\n"
-    "| id | what | files | suite green | quick checks run (TW_VERIF_SRC = changed tree) | alarms |\n|---|---|---|---|---|---|\n" + "\n".join(rows) + "\n")
+    "`result_final.json` / last column: the property's own quick check re-run after the checks were strengthened in response to wave 6.\n\n"
+    "| id | what | files | suite green | quick checks run (TW_VERIF_SRC = changed tree) | alarms | own check after wave-6 strengthening |\n|---|---|---|---|---|---|---|\n" + "\n".join(rows) + "\n")
 print(len(rows), "rows")
